@@ -594,7 +594,10 @@ class MinMaxAggregator:
         ]
         minmaxpred: Optional[MinMaxAggregator.MinMaxPred] = None
         for aggtype, translation, idx in self._minmax_preds:
-            if translation.oldpred in preds:
+            # only if the atom carries every argument of the chain predicate (no group variable projected away)
+            if translation.oldpred in preds and translation.newpred.arity == len(
+                [index for index in translation.mapping if index is not None]
+            ):
                 # check if it is globally safe to assume a unique tuple semantics
 
                 unsafe = []
@@ -666,7 +669,10 @@ class MinMaxAggregator:
         minmaxpred: Optional[MinMaxAggregator.MinMaxPred] = None
         oldmax: Optional[AST] = None
         for aggtype, translation, idx in self._minmax_preds:
-            if translation.oldpred in preds:
+            # only if the atom carries every argument of the chain predicate (no group variable projected away)
+            if translation.oldpred in preds and translation.newpred.arity == len(
+                [index for index in translation.mapping if index is not None]
+            ):
                 # check if it is locally safe to assume a unique tuple semantics
 
                 # check if any of the other elements is potentially unifying and therefore unsafe
